@@ -51,9 +51,6 @@ Definition dashed (h : str) : str :=
   firstn 8 h ++ MINUS :: firstn 4 (skipn 8 h) ++ MINUS :: firstn 4 (skipn 12 h) ++ MINUS
   :: firstn 4 (skipn 16 h) ++ MINUS :: skipn 20 h.
 
-Inductive bres (A : Type) := BOk (x : A) | BValueError | BUnsupported.
-Arguments BOk {A} x. Arguments BValueError {A}. Arguments BUnsupported {A}.
-
 (* str(value) for the value types of the model; float text stands for str(float) (Section contract in the proofs) *)
 Definition value_str (v : value) : str :=
   match v with VStr s => s | VInt z => print_int z | VFloat t => t | VUuid h => dashed h end.
